@@ -67,7 +67,7 @@ theorem send_ok (k : Kcp) (b : Bytes) (h : InvMss k) :
   unfold send
   split
   · exact ⟨rfl, h, rfl⟩
-  extract_lets mss ext panic1 q1 buf k1 count0 count
+  extract_lets mss ext buf count0 panic1 q1 k1 count
   have hlim : mss ≤ mtuLimit := h.mss_le_limit
   have hkey : ∀ s, k.snd_queue.getLast? = some s → ext = 0 ∨ s.data.length + ext ≤ mss := by
     intro s hs
@@ -101,7 +101,7 @@ theorem send_ok (k : Kcp) (b : Bytes) (h : InvMss k) :
   rw [hp1]
   simp only [Bool.false_eq_true, ↓reduceIte]
   split
-  · exact ⟨rfl, hk1, rfl⟩
+  · exact ⟨rfl, h, rfl⟩
   split
   · exact ⟨rfl, hk1, rfl⟩
   split
